@@ -1,6 +1,6 @@
 ------------------------------ MODULE LSCoreGen ------------------------------
 EXTENDS LSCore, Json, IOUtils
-VARIABLE hist
+VARIABLES hist, pre   \* pre: model state before the last operation (edge cover is per SOURCE state)
 GAddr == {"A", "B"}
 GAddr3 == {"A", "B", "C"}
 GRoots == {"-", "A", "R"}
@@ -11,11 +11,12 @@ Op(r) == IF r.op = "put" THEN [op |-> "put", mode |-> r.mode, root |-> r.root, c
          ELSE IF r.op = "get" THEN [op |-> "get", mode |-> r.mode, a |-> r.a]
          ELSE r
 
-GInit == Init /\ hist = <<>>
+GInit == Init /\ hist = <<>> /\ pre = <<>>
 GNext == /\ Len(hist) < Depth
          /\ IF Mode = "c14" THEN NextC14 ELSE IF Mode = "c14f" THEN NextC14F ELSE NextC11
          /\ hist' = Append(hist, Op(res'))
-GSpec == GInit /\ [][GNext]_<<vars, hist>>
+         /\ pre' = <<m, pin, cached>>
+GSpec == GInit /\ [][GNext]_<<vars, hist, pre>>
 \* focused C14 generator: start where the file context "A" already counts two cached chunks (from then on
 \* pinning under that context rewrites the gc entry outside the batch, i.e. operations have several storage writes)
 FPrefix == << [op |-> "put", mode |-> "request", root |-> "A", chs |-> <<<<"A", 1>>>>],
@@ -23,10 +24,10 @@ FPrefix == << [op |-> "put", mode |-> "request", root |-> "A", chs |-> <<<<"A", 
 GInitF == /\ m = [a \in Addr |-> IF a \in {"A", "B"} THEN 1 ELSE Absent]
           /\ pin = [a \in Addr |-> 0]
           /\ cached = [r \in Roots |-> IF r = "A" THEN {"A", "B"} ELSE {}]
-          /\ res = [op |-> "init"] /\ hist = FPrefix
-GNextF == /\ Len(hist) < Depth /\ NextC14F /\ hist' = Append(hist, Op(res'))
-GSpecF == GInitF /\ [][GNextF]_<<vars, hist>>
-EdgeView == <<m, pin, cached, res>>
+          /\ res = [op |-> "init"] /\ hist = FPrefix /\ pre = <<>>
+GNextF == /\ Len(hist) < Depth /\ NextC14F /\ hist' = Append(hist, Op(res')) /\ pre' = <<m, pin, cached>>
+GSpecF == GInitF /\ [][GNextF]_<<vars, hist, pre>>
+EdgeView == <<pre, m, pin, cached, res>>
 Scn == [par |-> [mode |-> IF Mode = "c11" THEN "c11" ELSE "c14"], ops |-> hist]
 EmitAll  == hist # <<>> => PrintT(<<"SCN", ToJson(Scn)>>)
 EmitFull == Len(hist) = Depth => PrintT(<<"SCN", ToJson(Scn)>>)
